@@ -453,8 +453,9 @@ type C17 struct{}
 
 func (C17) Meta() core.Meta {
 	return core.Meta{
-		Property: "C17",
-		Level:    "exploration",
+		Property:   "C17",
+		Level:      "exploration",
+		NonVacuous: []string{"crlf_streams", "genbank_to_fasta_conversions", "record_aligned_chunk_schedules"},
 		Rule: "Each simulated run draws from its seed a stream of 1-5 FASTA records (descriptions: empty, with '>', with leading/trailing blanks, arbitrary printable; residue " +
 			"counts sweeping every remainder mod 70 incl. 0 and exact multiples; alphabets ACGT / lower case / amino acids / every printable byte except '>'), or 1-2 GenBank " +
 			"records (generated or corpus, optionally sliced or edited) converted to FASTA. A simulated writer process writes them with the real FASTA writer; the 70-column " +
